@@ -43,6 +43,12 @@ type Spec struct {
 	// an error is machinery trouble (exit 2).
 	SelfTest   func(sc *Scratch, tier string) error
 	MemLimitKB int64
+	// TestPkgs are packages of the tree under test whose own tests are run
+	// against the instrumented copy before the workers start (transparency
+	// self-test of the instrumenter).
+	TestPkgs []string
+	// NoEnumInSelfTest: the determinism self-test skips enumerated cases.
+	DetRuns int64
 }
 
 // Scratch is a temporary build tree.
@@ -325,6 +331,20 @@ func Check(spec *Spec, o Options) int {
 		if err := spec.SelfTest(sc, o.Tier); err != nil {
 			return trouble("self-test failed: %v", err)
 		}
+	}
+	if len(spec.TestPkgs) > 0 && os.Getenv("VERIF_SKIP_TRANSPARENCY") == "" {
+		t0 := time.Now()
+		if err := sc.TestInstrumented(spec.TestPkgs); err != nil {
+			return trouble("transparency self-test failed: the repository's own tests do not pass on the instrumented copy (instrumenter defect, or the tree under test fails its own tests):\n%v", err)
+		}
+		logf("transparency self-test: the repository's tests pass on the instrumented copy (%.1fs)", time.Since(t0).Seconds())
+	}
+	if o.Tier == "thorough" && os.Getenv("VERIF_SKIP_DETERMINISM") == "" {
+		t0 := time.Now()
+		if err := Determinism(spec, sc, bin, o, 24); err != nil {
+			return trouble("determinism self-test failed: %v", err)
+		}
+		logf("determinism self-test passed (%.1fs)", time.Since(t0).Seconds())
 	}
 
 	runs, cap := spec.QuickRuns, spec.QuickCap
@@ -735,4 +755,118 @@ func joinPath(base, rel string) string {
 		return base
 	}
 	return base + "/" + rel
+}
+
+// TestInstrumented runs the repository's own tests of the given packages
+// against the (instrumented) scratch copy.
+func (sc *Scratch) TestInstrumented(pkgs []string) error {
+	args := append([]string{"test", "-vet=off", "-count=1", "-timeout", "20m"}, pkgs...)
+	cmd := exec.Command("go", args...)
+	cmd.Dir = sc.RT
+	cmd.Env = sc.Env
+	var buf bytes.Buffer
+	cmd.Stdout, cmd.Stderr = &buf, &buf
+	if err := cmd.Run(); err != nil {
+		return fmt.Errorf("%v\n%s", err, tail(buf.String(), 6000))
+	}
+	return nil
+}
+
+// Determinism executes the same runs several times in separate processes
+// under different GOMAXPROCS values and a different shard count and requires
+// identical per-run digests.
+func Determinism(spec *Spec, sc *Scratch, bin string, o Options, runs int64) error {
+	type cfgT struct {
+		procs, shards int
+	}
+	cfgs := []cfgT{{1, 1}, {4, 1}, {16, 1}, {16, 1}, {4, 3}, {1, 2}}
+	var ref map[string]uint64
+	for ci, cf := range cfgs {
+		got := map[string]uint64{}
+		for sh := 0; sh < cf.shards; sh++ {
+			out := filepath.Join(sc.Dir, fmt.Sprintf("det-%d-%d.json", ci, sh))
+			args := []string{"-seed", strconv.FormatUint(o.Seed+7, 10), "-nshards", strconv.Itoa(cf.shards), "-shard", strconv.Itoa(sh), "-runs", strconv.FormatInt(runs, 10),
+				"-maxsec", "900", "-tier", "selftest", "-replaydir", filepath.Join(sc.Dir, "det-replays"), "-arg", "repo=" + sc.Repo, "-arg", "selftest=1", "-digests", "-out", out}
+			if spec.ExtraArgs != nil {
+				args = append(args, spec.ExtraArgs(sc, o.Tier)...)
+			}
+			cmd := exec.Command(bin, args...)
+			cmd.Dir = sc.Dir
+			cmd.Env = append(os.Environ(), fmt.Sprintf("GOMAXPROCS=%d", cf.procs))
+			var buf bytes.Buffer
+			cmd.Stdout, cmd.Stderr = &buf, &buf
+			if err := cmd.Run(); err != nil {
+				return fmt.Errorf("worker failed: %v\n%s", err, tail(buf.String(), 3000))
+			}
+			b, err := os.ReadFile(out)
+			if err != nil {
+				return err
+			}
+			var r struct {
+				RunDigests map[string]uint64 `json:"run_digests"`
+			}
+			if err := json.Unmarshal(b, &r); err != nil {
+				return err
+			}
+			for k, v := range r.RunDigests {
+				got[k] = v
+			}
+		}
+		if ref == nil {
+			ref = got
+			if len(ref) == 0 {
+				return fmt.Errorf("no run digests produced")
+			}
+			continue
+		}
+		for k, v := range ref {
+			if got[k] != v {
+				return fmt.Errorf("run %s differs between GOMAXPROCS=%d/%d shard(s) and GOMAXPROCS=%d/%d shard(s): digest %x vs %x", k, cfgs[0].procs, cfgs[0].shards, cf.procs, cf.shards, v, got[k])
+			}
+		}
+		if len(got) != len(ref) {
+			return fmt.Errorf("different run sets: %d vs %d", len(got), len(ref))
+		}
+	}
+	return nil
+}
+
+// SelfTestOnly builds the harness and runs transparency and determinism
+// self-tests without a check.
+func SelfTestOnly(spec *Spec, o Options, runs int64) int {
+	sc, err := NewScratch(o.VerifDir, o.RepoDir)
+	if err != nil {
+		fmt.Fprintf(o.Stdout, "TROUBLE scratch: %v\n", err)
+		return ExitTrouble
+	}
+	defer sc.Remove()
+	if err := sc.WriteGoMod(nil); err != nil {
+		fmt.Fprintf(o.Stdout, "TROUBLE %v\n", err)
+		return ExitTrouble
+	}
+	if spec.Instrument != nil {
+		if err := spec.Instrument(sc); err != nil {
+			fmt.Fprintf(o.Stdout, "TROUBLE instrumentation failed: %v\n", err)
+			return ExitTrouble
+		}
+	}
+	bin, err := sc.Build(spec.Harness)
+	if err != nil {
+		fmt.Fprintf(o.Stdout, "TROUBLE build failed: %v\n", err)
+		return ExitTrouble
+	}
+	if len(spec.TestPkgs) > 0 {
+		if err := sc.TestInstrumented(spec.TestPkgs); err != nil {
+			fmt.Fprintf(o.Stdout, "SELFTEST %s transparency FAILED:\n%v\n", spec.ID, err)
+			return ExitTrouble
+		}
+		fmt.Fprintf(o.Stdout, "SELFTEST %s transparency ok (%v)\n", spec.ID, spec.TestPkgs)
+	}
+	t0 := time.Now()
+	if err := Determinism(spec, sc, bin, o, runs); err != nil {
+		fmt.Fprintf(o.Stdout, "SELFTEST %s determinism FAILED: %v\n", spec.ID, err)
+		return ExitTrouble
+	}
+	fmt.Fprintf(o.Stdout, "SELFTEST %s determinism ok: %d runs x 6 process configurations (GOMAXPROCS 1/4/16, 1-3 shards) gave identical per-run digests (%.1fs)\n", spec.ID, runs, time.Since(t0).Seconds())
+	return ExitOK
 }
